@@ -376,7 +376,7 @@ def closed_instrument_io(entry):
     return tried, ft.n, list(ft.log[:10]), bool(inst.is_open()), bool(ft._is_open)
 
 
-def dyn_class(entry, tier):
+def dyn_class(entry, tier, seed=0):
     """everything dynamic for one class (runs in a forked child)"""
     time.sleep = lambda s: None
     import logging
@@ -391,6 +391,11 @@ def dyn_class(entry, tier):
         r["reason"] = "%s: %s" % (type(e).__name__, str(e)[:200])
         return r
     r["scenarios"].append({"phase": "open", "plan": {}, "closefail": False, "steps": steps})
+    try:    # which open()/close() does Python really resolve?  (cross-check of the translator's MRO resolution)
+        cls = getattr(importlib.import_module(entry["module"]), entry["class"])
+        r["live_defs"] = {w: getattr(cls, w).__qualname__.rsplit(".", 1)[0] for w in ("open", "close")}
+    except Exception:  # noqa: BLE001
+        r["live_defs"] = None
     if steps[0]["out"] != "N":
         r["status"] = "clean-open-fails"
         r["reason"] = "a fault-free open() on the fake transport raises %s (reply table incomplete)" % steps[0]["exc"]
@@ -416,15 +421,28 @@ def dyn_class(entry, tier):
             for k2 in range(k1 + 1, len(open_log) + 2):
                 for kd in (("timeout", "oserror"), ("instr", "timeout")):
                     plans.append(("open", {k1: kd[0], k2: kd[1]}, False))
+    # seeded random multi-fault plans (several faults in one call, cleanup failing or not)
+    import random
+    rng = random.Random(seed)
+    for _ in range(8 if tier == "quick" else 80):
+        phase = rng.choice(["open", "open", "close"])
+        n = len(open_log) if phase == "open" else len(close_log)
+        idx = rng.sample(range(n + 2), rng.randint(1, min(3, n + 2)))
+        plans.append((phase, {k: rng.choice(FAULT_KINDS[:3]) for k in idx}, rng.random() < 0.3))
+    seen_plans = set()
     for phase, plan, cf in plans:
+        sig = (phase, tuple(sorted(plan.items())), cf)
+        if sig in seen_plans:
+            continue
+        seen_plans.add(sig)
         try:
             st = run_scenario(entry, phase, plan, cf)
         except Exception as e:  # noqa: BLE001
             r["scenarios"].append({"phase": phase, "plan": plan, "closefail": cf, "steps": [],
                                    "error": "%s: %s" % (type(e).__name__, e)})
             continue
-        if cf and not any(f[1] == "close" for f in st[0]["fired"]):
-            continue    # no cleanup close happened: identical to the single-fault scenario
+        if cf and not any(f[1] == "close" for s_ in st for f in s_["fired"]):
+            continue    # no cleanup close happened: identical to the scenario without it
         r["scenarios"].append({"phase": phase, "plan": plan, "closefail": cf, "steps": st})
     try:
         r["closed_io"] = closed_instrument_io(entry)
@@ -435,9 +453,9 @@ def dyn_class(entry, tier):
 
 
 def _dyn_entry(args):
-    entry, tier = args
+    entry, tier, seed = args
     try:
-        return dyn_class(entry, tier)
+        return dyn_class(entry, tier, seed)
     except BaseException as e:  # noqa: BLE001
         return {"ident": entry["ident"], "status": "not-instantiable", "scenarios": [],
                 "reason": "harness child failed: %s: %s" % (type(e).__name__, e)}
@@ -452,16 +470,15 @@ def oracle_step(st, faulted):
     bad = []
     pre, post = tuple(st["pre"]), tuple(st["post"])
     call = st["call"]
-    if post[0] != post[1]:
+    if post[0] != post[1] and st["out"] == "X":
         if call == "open":
             kind = "open-fault-leaves-link-held" if post[1] else "open-fault-leaves-flag-open"
         else:
-            kind = "close-fault-leaves-flag-open" if post[0] else "close-leaves-link-held"
+            kind = "close-fault-leaves-flag-open" if post[0] else "close-fault-leaves-link-held"
         if not faulted:
             kind = kind.replace("-fault", "")
         if pre[0] == pre[1]:
-            bad.append((kind, "%s() %s ends with is_open()=%s but link held=%s" % (
-                call, "raising %s" % st["exc"] if st["out"] == "X" else "returning normally", post[0], post[1])))
+            bad.append((kind, "%s() raising %s ends with is_open()=%s but link held=%s" % (call, st["exc"], post[0], post[1])))
     if pre[0] != pre[1]:
         return bad            # already reported at the call that broke the invariant; nothing is demanded here
     if call == "open":
@@ -500,10 +517,6 @@ def coq_case(ident, st):
 # run
 # ------------------------------------------------------------------------------------------------------
 
-STATIC_KIND = {  # (method, category, flag, held) of a counter-example state -> violation kind
-}
-
-
 def static_kinds(which, wits):
     kinds = {}
     for w in wits:
@@ -511,16 +524,16 @@ def static_kinds(which, wits):
             if which == "open":
                 k = "open-fault-leaves-link-held" if w["held"] else "open-fault-leaves-flag-open"
             else:
-                k = "close-fault-leaves-flag-open" if w["flag"] else "close-leaves-link-held"
+                k = "close-fault-leaves-flag-open" if w["flag"] else "close-fault-leaves-link-held"
             if not w["fault_lines"]:
                 k = k.replace("-fault", "")
         elif w["cat"] == 0:
             k = "%s-success-wrong-state" % which
-            if which == "close" and w["held"] and not w["flag"]:
-                k = "close-leaves-link-held"
         else:
             k = "open-on-open-not-refused" if which == "open" else "close-on-closed-not-refused"
-        kinds.setdefault(k, w)
+        kinds.setdefault(k, []).append(w)
+    for k in kinds:
+        kinds[k].sort(key=lambda w: len(w["fault_lines"]))
     return kinds
 
 
@@ -556,6 +569,7 @@ def run(ck):
                   "the model's primitive no longer matches the base class: " + p,
                   {"broken": "base_facts of t_c19_openclose", "fact": p}, found_input=False)
     classes = res["classes"]
+    dyn_only = [x["entry"] for x in res["not_covered"] if "entry" in x]   # untranslatable: oracle only
     not_covered = [{"class": s["class"], "config": s.get("config"), "part": "static+dynamic", "reason": s["reason"]}
                    for s in res["not_covered"]]
     for s in res["not_covered"]:
@@ -563,6 +577,24 @@ def run(ck):
                   "driver class %s cannot be translated (broken tie): %s" % (s["class"], s["reason"]),
                   {"broken": "translator t_c19_openclose", "class": s["class"], "reason": s["reason"]},
                   found_input=False)
+    # every driver module that calls create_transport must contribute at least one translated class
+    import glob
+    using = []
+    for fn in sorted(glob.glob(os.path.join(common.REPO, "qmi", "instruments", "*", "*.py"))):
+        with open(fn, "rb") as f:
+            if b"create_transport(" in f.read():
+                using.append(os.path.relpath(fn, common.REPO))
+    have = {e["file"] for e in classes} | {e["open_file"] for e in classes} | \
+           {x["entry"]["file"] for x in res["not_covered"] if "entry" in x}
+    ck.coverage["modules_calling_create_transport"] = len(using)
+    for fn in using:
+        if fn not in have:
+            not_covered.append({"class": fn, "config": None, "part": "static+dynamic",
+                                "reason": "module calls create_transport but no QMI_Instrument subclass with a link "
+                                          "attribute was recognised in it"})
+            ck.report("tie:translator:module:%s" % re.sub(r"\d", lambda m: "abcdefghij"[int(m.group(0))], fn),
+                      "driver module %s calls create_transport but contributes no translated class (broken tie)" % fn,
+                      {"broken": "translator t_c19_openclose (class discovery)", "module": fn}, found_input=False)
     # 2. programs, verdicts (by Coq), obligations
     ok, log = common.build_vo([os.path.join(common.COQ, "theories", THEORY, f) for f in ("Model.v", "Proofs.v", "Corr.v")])
     if not ok:
@@ -576,13 +608,12 @@ def run(ck):
     gen_ok = "generated obligation file" not in ck.proof_log
 
     # 3. dynamic
-    for e in classes:
-        importlib.import_module  # modules are imported inside the children (fork) so a broken import is contained
+    # (driver modules are imported inside the forked children, so a broken import stays contained)
     t0 = time.time()
     mp = multiprocessing.get_context("fork")
     dyn = {}
     with mp.Pool(min(common.NPROC, 12)) as pool:
-        asyncs = [(e, pool.apply_async(_dyn_entry, ((e, ck.tier),))) for e in classes]
+        asyncs = [(e, pool.apply_async(_dyn_entry, ((e, ck.tier, ck.rng.getrandbits(32)),))) for e in classes + dyn_only]
         for e, a in asyncs:
             try:
                 dyn[e["ident"]] = a.get(timeout=120)
@@ -594,7 +625,7 @@ def run(ck):
 
     terms, metas = [], []
     dyn_viol = {}     # key -> (text, replay)
-    for e in classes:
+    for e in classes + dyn_only:
         d = dyn[e["ident"]]
         if d["status"] != "ok":
             not_covered.append({"class": e["class"], "config": e["config"], "part": "dynamic", "reason": d["reason"]})
@@ -609,12 +640,21 @@ def run(ck):
                 faulted = bool(st["fired"])
                 ck.count("call:%s:%s%s" % (st["call"], "ok" if st["out"] == "N" else "raises", ":faulted" if faulted else ""))
                 ck.note_case((e["ident"], sc["phase"], sorted(sc["plan"].items()), sc["closefail"], i), faulted or i > 0)
-                terms.append(coq_case(e["ident"], st))
-                metas.append((e, sc, i))
+                if "open" in e:
+                    terms.append(coq_case(e["ident"], st))
+                    metas.append((e, sc, i))
                 for kind, text in oracle_step(st, faulted):
                     key = fkey(e["ident"], kind)
                     if key not in dyn_viol:
                         dyn_viol[key] = (text, e, sc, i)
+        ld = d.get("live_defs")
+        if ld and "open" in e:
+            for w in ("open", "close"):
+                if ld[w] != e[w + "_defcls"]:
+                    ck.report("tie:translator-live-mismatch:%s:%s" % (e["ident"], digits_as_letters(e["ident"])),
+                              "translator resolved %s.%s to class %s, Python resolves it to %s" % (
+                                  e["class"], w, e[w + "_defcls"], ld[w]),
+                              {"broken": "translator t_c19_openclose (MRO)", "class": e["class"]}, found_input=False)
         cio = d.get("closed_io")
         if cio is not None:
             ck.count("closed-instrument-rpc-calls", cio[0])
@@ -627,8 +667,8 @@ def run(ck):
         r = {"class": e["class"], "module": e["module"], "ident": e["ident"], "config": e["config"], "live": e["live"],
              "phase": sc["phase"], "plan": {str(k): v for k, v in sc["plan"].items()}, "closefail": sc["closefail"],
              "failing_step": i, "observed_steps": sc["steps"],
-             "open_program": e["open"], "close_program": e["close"],
-             "open_defined_at": e["open_def"], "close_defined_at": e["close_def"]}
+             "open_program": e.get("open"), "close_program": e.get("close"),
+             "open_defined_at": e.get("open_def"), "close_defined_at": e.get("close_def")}
         if extra:
             r.update(extra)
         return r
@@ -643,9 +683,14 @@ def run(ck):
                 continue
             kinds = static_kinds(which, wit[e["ident"]][which])
             all_known = True
-            for kind, w in kinds.items():
+            for kind, ws in kinds.items():
                 key = fkey(e["ident"], kind)
                 confirmed = key in dyn_viol
+                w = ws[0]
+                if confirmed:       # prefer the counter-example whose fault line the dynamic run hit
+                    _, _, sc_, i_ = dyn_viol[key]
+                    seen_lines = set(sc_["steps"][i_]["lines"]) if sc_["steps"] else set()
+                    w = next((x for x in ws if set(x["fault_lines"]) & seen_lines), w)
                 what = "%s.%s() [%s]: the analyser finds an execution ending with is_open()=%s, link held=%s after " \
                        "faults at source lines %s" % (e["class"], which, e[which + "_def"], w["flag"], w["held"],
                                                       w["fault_lines"])
@@ -673,9 +718,12 @@ def run(ck):
     for key, (text, e, sc, i) in dyn_viol.items():
         kind = key.split(":")[1]
         which = "close" if kind.startswith("close") and kind != "closed-instrument-does-io" else "open"
-        predicted = kind in static_kinds(which, wit[e["ident"]][which]) if not verd[e["ident"]][0 if which == "open" else 1] else False
+        predicted = False
+        if e["ident"] in verd and not verd[e["ident"]][0 if which == "open" else 1]:
+            predicted = kind in static_kinds(which, wit[e["ident"]][which])
         if not predicted:
-            ck.report(key, "%s: %s (fault plan %s) - not predicted by the generated program" % (e["class"], text, sc["plan"]),
+            ck.report(key, "%s: %s (fault plan %s%s) - observed on the real class; the generated program does not "
+                      "predict this failure" % (e["class"], text, sc["plan"], " + failing cleanup close" if sc["closefail"] else ""),
                       replay_of(e, sc, i))
     total_listed = n_ok + len(failed)
     ck.add_generated_obligations(total_listed, n_ok if gen_ok else 0, failed if gen_ok else ["C19Drivers.v does not compile"])
@@ -724,6 +772,8 @@ def replay(rep):
         print("replay file carries no scenario (broken tie / static-only refutation):", rep.get("what"))
         print(json.dumps(c, indent=1)[:3000])
         return 1
+    import logging
+    logging.disable(logging.CRITICAL)
     res = TR.translate(common.REPO)
     entry = next((e for e in res["classes"] if e["ident"] == c["ident"]), None)
     if entry is None:
